@@ -138,6 +138,32 @@ func c19Effects(c *Check, R map[*ssa.Function]bool) {
 					continue
 				}
 				path := callee.Pkg.Pkg.Path()
+				if path == "maps" {
+					// maps.Keys/Values/All iterate in map order: an order source unless consumed by a sort
+					okSorted := false
+					if v := x.Value(); v != nil {
+						okSorted = true
+						n := 0
+						for _, ref := range *v.Referrers() {
+							if c2, ok := ref.(*ssa.Call); ok {
+								if cal := c2.Common().StaticCallee(); cal != nil && cal.Pkg != nil && cal.Pkg.Pkg.Path() == "slices" && strings.HasPrefix(cal.Name(), "Sorted") {
+									n++
+									continue
+								}
+							}
+							if _, isDbg := ref.(*ssa.DebugRef); isDbg {
+								continue
+							}
+							okSorted = false
+						}
+						okSorted = okSorted && n > 0
+					}
+					switch callee.Name() {
+					case "Keys", "Values", "All", "Collect", "Insert":
+						c.Result(okSorted, "C19.M", "map iterator "+callee.Name(), fnName(fn), site, "maps.Keys/Values/All are consumed only by slices.Sorted*", fnName(callee))
+					}
+					continue
+				}
 				what, bad := forbiddenPkgs[path]
 				if !bad {
 					if path == "sync" && strings.Contains(callee.String(), "sync.Map") {
